@@ -5,20 +5,10 @@ from . import io_rules as io
 from . import io_rules2 as io2
 from . import loader_rules as lr
 
-EXPLANATION = (
-    "Static rules on the state that survives between load() calls (the Loader, its reader objects and the shared meta dict): "
-    "(R1) definite reset: every reader attribute that Loader.load reads without an `initialized` guard (computed from the "
-    "AST: today readers['amr'].cpu_list) is assigned on EVERY path through the corresponding initialize(); (R2) per-call "
-    "re-initialisation: `self.initialized = False` is the first effect of every reader's initialize, the off-switch returns "
-    "before anything else, descriptor_to_variables replaces every record with a fresh one (empty pieces); (R3) shared meta: "
-    "meta['lmax'] is assigned unconditionally at the start of every load, ncells/nparticles are reset on the paths that can "
-    "accumulate and the other paths cannot accumulate (lmax = 0, cpu_list = []); (R4) per-file reset of offsets and bytes "
-    "before the header is read (protocol skeleton); (R5) returned groups replace stored ones; outputs and selections are "
-    "rebuilt per call; (R6) all mesh readers share one activation guard.")
-NOT_DECIDED = ("equality with a fresh dataset as data (follows if no state leaks: the rules enumerate the state that exists today; "
-               "a new attribute read by load() without a guard is picked up by R1 automatically)")
-TRUSTED = ("CPython ast",)
-TECHNIQUE = "static analysis: definite-assignment on all paths, dominance/ordering rules on the shared state"
+EXPLANATION = '(R1/R2) reader.initialize histories for every reader class (selected with files -> switched off -> selected without files): initialised exactly when selected and present, the AMR reader drops the cpu list of an earlier load; descriptor_to_variables rebuilds every record (no pieces of an earlier load); (R3) two consecutive loads on ONE Loader object (different selection and cpu list): the second is unaffected by the first (selection, level cap, counters, pieces, output objects); (R4) offsets zeroed and bytes replaced before every header of every file; (R5) the sink group is parsed anew on every load.'
+NOT_DECIDED = 'state kept by numba/matplotlib; file-system races'
+TRUSTED = ('CPython ast', 'the interpreter sa/models.py (ModelEval) and its library models')
+TECHNIQUE = 'static analysis: history folding (sequences of calls on one object) of the loader and readers over recording models'
 
 from . import loader_folds as lfold
 from . import io_folds as iof
